@@ -7,7 +7,9 @@ require (
 	github.com/attestantio/go-eth2-client v0.21.11
 	github.com/dgraph-io/badger/v2 v2.2007.4
 	github.com/herumi/bls-eth-go-binary v1.36.1
+	github.com/mitchellh/go-homedir v1.1.0
 	github.com/rs/zerolog v1.33.0
+	github.com/spf13/viper v1.19.0
 	github.com/wealdtech/eth2-signer-api v1.7.2
 	github.com/wealdtech/go-eth2-types/v2 v2.8.2
 	github.com/wealdtech/go-eth2-wallet-distributed v1.2.1
@@ -58,7 +60,6 @@ require (
 	github.com/mattn/go-colorable v0.1.13 // indirect
 	github.com/mattn/go-isatty v0.0.20 // indirect
 	github.com/minio/sha256-simd v1.0.1 // indirect
-	github.com/mitchellh/go-homedir v1.1.0 // indirect
 	github.com/mitchellh/mapstructure v1.5.0 // indirect
 	github.com/munnerz/goautoneg v0.0.0-20191010083416-a7dc8b61c822 // indirect
 	github.com/opentracing/opentracing-go v1.2.0 // indirect
@@ -75,7 +76,6 @@ require (
 	github.com/spf13/afero v1.11.0 // indirect
 	github.com/spf13/cast v1.7.0 // indirect
 	github.com/spf13/pflag v1.0.5 // indirect
-	github.com/spf13/viper v1.19.0 // indirect
 	github.com/stretchr/testify v1.9.0 // indirect
 	github.com/subosito/gotenv v1.6.0 // indirect
 	github.com/wealdtech/go-bytesutil v1.2.1 // indirect
